@@ -191,7 +191,7 @@ func genSetRequest(rt *rapid.T, v *model.Variant, m *model.Node, o reqOpts, labe
 	}
 	jsonUnder := func(id string) bool {
 		for _, s := range ri.JSONSites {
-			if strings.HasPrefix(id, s) {
+			if under(id, s) {
 				return true
 			}
 		}
@@ -216,7 +216,7 @@ func genSetRequest(rt *rapid.T, v *model.Variant, m *model.Node, o reqOpts, labe
 		// keep JSON sites disjoint (no site below another one)
 		skip := false
 		for _, other := range ri.JSONSites {
-			if strings.HasPrefix(id, other) || strings.HasPrefix(other, id) {
+			if under(id, other) || under(other, id) {
 				skip = true
 			}
 		}
@@ -271,7 +271,7 @@ func genSetRequest(rt *rapid.T, v *model.Variant, m *model.Node, o reqOpts, labe
 			if o.NoLLTwice {
 				bad := false
 				for ll := range ri.LLDirect {
-					if strings.HasPrefix(ll, id) {
+					if under(ll, id) {
 						bad = true
 					}
 				}
@@ -314,10 +314,15 @@ func genSetRequest(rt *rapid.T, v *model.Variant, m *model.Node, o reqOpts, labe
 	return ri
 }
 
+// under: path id is anc or lies below it (ids as rendered by model.ElemsID).
+func under(id, anc string) bool {
+	return anc == "" || id == anc || strings.HasPrefix(id, anc+"/") || strings.HasPrefix(id, anc+"[")
+}
+
 // conflicts: id equals, is above or is below one of the ids.
 func conflicts(id string, ids []string) bool {
 	for _, o := range ids {
-		if o == id || strings.HasPrefix(id, o+"/") || strings.HasPrefix(o, id+"/") || strings.HasPrefix(id, o+"[") || strings.HasPrefix(o, id+"[") {
+		if under(id, o) || under(o, id) {
 			return true
 		}
 	}
